@@ -128,8 +128,13 @@ func without(base, delta []byte, v verdict, f string) (b2, d2 []byte, ok bool) {
 		return []byte{'x'}, join(lebPadded(1, len(srcHdr)), tgtHdr, ops), true
 	case "src-hdr-padded", "src-hdr-10-bytes":
 		return base, join(leb(v.srcSize), tgtHdr, ops), true
-	case "tgt-hdr-padded", "tgt-hdr-10-bytes", "tgt-hdr-unterminated":
+	case "tgt-hdr-padded", "tgt-hdr-10-bytes":
 		return base, join(srcHdr, leb(v.tgtSize), ops), true
+	case "tgt-hdr-unterminated":
+		// same bytes with the dangling continuation bit cleared: same value, same delta length
+		t2 := append([]byte{}, tgtHdr...)
+		t2[len(t2)-1] &= 0x7f
+		return base, join(srcHdr, t2, ops), true
 	case "copy-size-0":
 		var out []byte
 		pos := 0
@@ -185,16 +190,16 @@ func causalFeatures(p *pcase, a applier, dir string) string {
 		return feats[0]
 	}
 	cur := p
-	var kept []string
+	var kept, fixed []string // kept: removal makes the applier agree; fixed: cannot be removed without changing git's verdict
 	for _, f := range feats {
 		b2, d2, ok := without(cur.base, cur.delta, cur.v, f)
 		if !ok {
-			kept = append(kept, f)
+			fixed = append(fixed, f)
 			continue
 		}
 		v2 := gitPatchDelta(b2, d2)
 		if !v2.ok || v2.undefined {
-			kept = append(kept, f)
+			fixed = append(fixed, f)
 			continue
 		}
 		p2 := &pcase{base: b2, delta: d2, level: p.level, v: v2, mmDir: p.mmDir}
@@ -204,8 +209,11 @@ func causalFeatures(p *pcase, a applier, dir string) string {
 			kept = append(kept, f)
 		}
 	}
-	if len(kept) == 0 {
-		return "plain"
+	if len(kept) > 0 {
+		return strings.Join(kept, "+")
 	}
-	return strings.Join(kept, "+")
+	if len(fixed) > 0 {
+		return strings.Join(fixed, "+")
+	}
+	return "plain"
 }
